@@ -809,8 +809,15 @@ impl<B: Cfg> DynFx for Fx<B> {
 
     fn devs(&self, units: &[usize]) -> Vec<Dev> {
         let mut v = vec![Dev::Honest];
+        // the tagging constant K belongs to the harness' exposure of the samples, not to the
+        // challenger: its slot is not deviated
+        let k_slot: Option<u32> = self.fx.circuit.ops.iter().find_map(|op| match op {
+            Op::Const { out, val } if *val == emb::<B>(B::BF::from_u64(K)) => Some(out.0),
+            _ => None,
+        });
         for f in self.fx.enumerate(units) {
             let keep = match &f {
+                Fault::F2 { slot, .. } if Some(*slot) == k_slot => false,
                 Fault::F2 { .. } | Fault::F2Sibling { .. } | Fault::F4 { .. } => true,
                 Fault::F3 { slot, .. } => {
                     matches!(self.fx.definers.get(*slot as usize).cloned().flatten(), Some(Definer::PublicInput))
@@ -823,7 +830,9 @@ impl<B: Cfg> DynFx for Fx<B> {
         }
         if B::PERM_D == 1 {
             for call in 0..self.perm_ops.len() {
-                for limb in 0..16 {
+                // rate limbs have witness slots (class F2 covers them); the capacity limbs of a
+                // D=1 row only live in the table's chain
+                for limb in 8..16 {
                     v.push(Dev::Perm { call, limb });
                 }
             }
@@ -884,12 +893,15 @@ impl<B: Cfg> DynFx for Fx<B> {
             return e;
         }
         let verdict = self.fx.accept(&traces, &edits);
-        let pred = self.fx.predicate(&inputs, &committed);
-        e.pred_fails = Some(pred.fails());
-        e.pred_txt = match &pred {
-            vpe3::Pred::Fails(c) => format!("fails: {}", c.kind),
-            other => other.short().to_string(),
-        };
+        if verdict.accepted() {
+            // cross-check with vpe3's reference predicate (only needed for accepted traces)
+            let pred = self.fx.predicate(&inputs, &committed);
+            e.pred_fails = Some(pred.fails());
+            e.pred_txt = match &pred {
+                vpe3::Pred::Fails(c) => format!("fails: {}", c.kind),
+                other => other.short().to_string(),
+            };
+        }
         e.status = Status::Proved(verdict);
         e
     }
@@ -1078,6 +1090,8 @@ fn main() {
         machinery_error("no configuration selected");
     }
     let prove_all = ctx.opt("prove") == Some("all");
+    // soft cap: leave room for the proofs in flight and the evidence (quick: 45 s * 0.8 = 36 s)
+    let over = || ctx.used() >= 0.8;
 
     // states of the automaton per configuration
     let mut per_cfg: Vec<Value> = vec![];
@@ -1097,6 +1111,7 @@ fn main() {
     }
 
     let histo = Histo::new();
+    let site_histo = Histo::new();
     let samples: Mutex<Vec<Value>> = Mutex::new(vec![]);
     let timed_out = AtomicBool::new(false);
     let (mut evaluations, mut candidates, mut proved, mut accepted_unbound) = (0u64, 0u64, 0u64, 0u64);
@@ -1110,11 +1125,20 @@ fn main() {
     // level by level (shortest histories first, all configurations interleaved): a cut by the
     // wall-clock budget removes the longest histories, never a configuration
     'levels: for level in 0..=depth {
-        let todo: Vec<&(usize, Vec<Act>)> = plan.iter().filter(|(_, h)| h.len() == level).collect();
+        // configurations interleaved (k-th state of every configuration, then the (k+1)-th ...)
+        let mut todo: Vec<(usize, &(usize, Vec<Act>))> = vec![];
+        let mut rank: BTreeMap<usize, usize> = BTreeMap::new();
+        for p in plan.iter().filter(|(_, h)| h.len() == level) {
+            let r = rank.entry(p.0).or_insert(0);
+            todo.push((*r, p));
+            *r += 1;
+        }
+        todo.sort_by_key(|(r, p)| (*r, p.0));
+        let todo: Vec<&(usize, Vec<Act>)> = todo.into_iter().map(|(_, p)| p).collect();
         if todo.is_empty() {
             continue;
         }
-        if ctx.out_of_time() {
+        if over() {
             timed_out.store(true, Ordering::Relaxed);
             break 'levels;
         }
@@ -1166,7 +1190,7 @@ fn main() {
                 if i >= tasks.len() {
                     break;
                 }
-                if ctx.out_of_time() {
+                if over() {
                     timed_out.store(true, Ordering::Relaxed);
                     break;
                 }
@@ -1195,6 +1219,12 @@ fn main() {
             evaluations += 1;
             let f = &fxs[*fi];
             histo.add(&format!("{} | {} | {}", f.family(), e.class, e.outcome()));
+            if !matches!(e.status, Status::Noop) {
+                site_histo.add(&format!(
+                    "{} | {} {} {} carrying {} | {}",
+                    f.family(), e.class, e.table, e.role, e.prov, e.outcome()
+                ));
+            }
             match &e.status {
                 Status::Noop => noops += 1,
                 Status::Inapplicable(_) => inapplicable += 1,
@@ -1301,6 +1331,7 @@ fn main() {
         "inapplicable_deviations": inapplicable,
         "oracle_violation_but_vpe3_predicate_holds": crosscheck_bad,
         "histogram_family_class_outcome": histo.to_json(),
+        "histogram_family_site_outcome": site_histo.to_json(),
         "cases": fixtures_json,
         "delta_units": if ctx.quick() { json!([0]) } else { json!([0, "D-1"]) },
         "oracle": "native p3_challenger::DuplexChallenger replayed on the observed values committed in the Public table; committed sampled challenge = public output / 7",
